@@ -73,6 +73,12 @@ CFG = {
         "Swat4.C01.E2EExample.plaintext_decodes",
         "Swat4.C01.E2EExample.reply_decodes",
         "Swat4.C01.E2EExample.reply_decodes_malformed",
+        # "integers in decimal": Browsing.decimal (shared with the reference renderer) characterised on its own
+        "Swat4.C01.decimal_spec",
+        "Swat4.C01.decimal_atoi",
+        "Swat4.C01.decimal_bytes",
+        "Swat4.C01.decimal_no_plus",
+        "Swat4.C01.decimal_eq_renderInt",
     ],
     "shards": (4, 16),
     "nontrivial": _c01_nontrivial,
